@@ -61,6 +61,9 @@ func (e errCall) String() string {
 }
 
 // authOutcome decides whether the callback accepts, and whether it reads.
+// authCrashed: the scripted callback panicked during the request being served.
+var authCrashed bool
+
 func authFunc(mode string, party *string, log *simfw.Log, calls *int, sawFull *[]int, want func() int) openapi3filter.AuthenticationFunc {
 	return func(ctx context.Context, in *openapi3filter.AuthenticationInput) error {
 		*calls++
@@ -74,6 +77,10 @@ func authFunc(mode string, party *string, log *simfw.Log, calls *int, sawFull *[
 			}
 		}
 		log.Add("auth", "callback", in.SecuritySchemeName, mode)
+		if mode == "panic" {
+			authCrashed = true
+			panic("the authentication backend crashed")
+		}
 		if strings.HasSuffix(mode, "fail") {
 			return errors.New("credential rejected")
 		}
@@ -209,18 +216,19 @@ func (Sim) Run(raw json.RawMessage, prop string, keep bool) (res simfw.Result) {
 
 	party := "validator"
 	var (
-		errCalls  []errCall
-		encCalls  []error
-		logCalls  int
-		authCalls int
-		authSaw   []int
-		cur       *Req
-		rec       *simenv.HandlerRec
-		curClient *simenv.Client
-		callsIn   int
-		callsOut  int
-		outStatus int    // final status committed to the client when the handler returned (0: none)
-		outBody   string // body bytes the client had received by then
+		errCalls   []errCall
+		encCalls   []error
+		logCalls   int
+		authCalls  int
+		authSaw    []int
+		cur        *Req
+		rec        *simenv.HandlerRec
+		curClient  *simenv.Client
+		callsIn    int
+		callsOut   int
+		decoyCalls int    // calls of the handler behind the validator's other wrapper (must stay 0)
+		outStatus  int    // final status committed to the client when the handler returned (0: none)
+		outBody    string // body bytes the client had received by then
 	)
 	handler := http.HandlerFunc(func(w http.ResponseWriter, r *http.Request) {
 		callsIn = curClient.Calls
@@ -266,7 +274,13 @@ func (Sim) Run(raw json.RawMessage, prop string, keep bool) (res simfw.Result) {
 				log.Add("logfunc", "call", msg[:min(len(msg), 24)], "")
 			}))
 		}
-		mwh = openapi3filter.NewValidator(world.Router, opts...).Middleware(handler)
+		v := openapi3filter.NewValidator(world.Router, opts...)
+		if s.Rewrap {
+			// one Validator in front of two handlers: requests go through the second wrapper
+			_ = v.Middleware(http.HandlerFunc(func(http.ResponseWriter, *http.Request) { decoyCalls++ }))
+			res.Probe("validator-wraps-two-handlers")
+		}
+		mwh = v.Middleware(handler)
 	default:
 		path := "/simfs/" + s.Marker + "/doc.yaml"
 		zzsimrt.ReadFileFunc = func(name string) ([]byte, error, bool) {
@@ -346,6 +360,7 @@ func (Sim) Run(raw json.RawMessage, prop string, keep bool) (res simfw.Result) {
 		errCalls, encCalls = nil, nil
 		authCalls = 0
 		party = "validator"
+		authCrashed = false
 		log.Add("sim", "request", fmt.Sprintf("#%d %s %s", i, q.Method, q.Path), q.Intent)
 		req, st := buildRequest(q, log, &party)
 		client := simenv.NewClient(log, q.Client, q.Method)
@@ -361,6 +376,19 @@ func (Sim) Run(raw json.RawMessage, prop string, keep bool) (res simfw.Result) {
 		}()
 		callsAtReturn := client.Calls
 		client.Finalise()
+		if decoyCalls > 0 {
+			res.Violate(Prop, "gate", fmt.Sprintf("%s/wrong-handler", Prop), fmt.Sprintf("req #%d: the request went through the validator's second wrapper, yet the handler behind its first wrapper was invoked (%d calls)", i, decoyCalls))
+			decoyCalls = 0
+			continue
+		}
+		if authCrashed {
+			// the callback panicked: whatever becomes of the panic, the request was not authenticated
+			res.Fault("auth_callback_panic")
+			if rec.Entered > 0 {
+				res.Violate(Prop, "gate", fmt.Sprintf("%s/gate-auth-crash:%s", Prop, s.Kind), fmt.Sprintf("req #%d: the authentication callback crashed, yet the handler was invoked", i))
+			}
+			continue
+		}
 		shape := q.Script.ShapeClass()
 		sig := func(o string) string {
 			mode := s.Kind
@@ -401,7 +429,7 @@ func (Sim) Run(raw json.RawMessage, prop string, keep bool) (res simfw.Result) {
 
 		// ---- neutral verdict --------------------------------------------
 		nreq := neutralRequest(q)
-		nAuthFails := strings.HasSuffix(s.Auth, "fail") || s.Auth == "none" // without a callback no scheme can be accepted
+		nAuthFails := strings.HasSuffix(s.Auth, "fail") || s.Auth == "none" || s.Auth == "panic" // without a callback (or with a crashing one) no scheme is accepted
 		nopts := &openapi3filter.Options{MultiError: s.MultiError && s.Kind == "validator", ExcludeResponseBody: s.ExclRespBody && s.Kind == "validator", IncludeResponseStatus: s.InclRespStatus && s.Kind == "validator", AuthenticationFunc: func(context.Context, *openapi3filter.AuthenticationInput) error {
 			if nAuthFails {
 				return errors.New("credential rejected")
